@@ -7,7 +7,18 @@ fn main() {
     let args = common::parse_args();
     common::quiet_panics();
     let out = match args.prop.as_str() {
-        "C01" => wal::run(&args),
+        "C01" => {
+            // FileStorage-level cases, then Storage-level cases over a FileStorage with the crash oracle
+            let mut a = wal::run(&args);
+            if args.mode == "replay" {
+                let has_st = common::read_op_file(args.ops.as_ref().unwrap()).iter().any(|l| l.starts_with("st "));
+                if has_st { a = st::run(&args); }
+            } else {
+                let b = st::run(&args);
+                a.merge(b);
+            }
+            a
+        }
         "C04" | "C06" => st::run(&args),
         "C23" => rd::run(&args),
         p => {
